@@ -484,7 +484,8 @@ func (bl *ToBoltListener) exitInArrayOp() {
 		if op == BinaryOpIn {
 			bl.pushStack(node)
 		} else if op == BinaryOpNotIn {
-			bl.pushStack(&NotExprNode{expr: node})
+			node.negated = true
+			bl.pushStack(node)
 		} else {
 			bl.SetError(errors.Errorf("Unexpected operation: %v", op))
 		}
@@ -513,7 +514,8 @@ func (bl *ToBoltListener) exitBetweenOp() {
 		if op == BinaryOpBetween {
 			bl.pushStack(node)
 		} else if op == BinaryOpNotBetween {
-			bl.pushStack(&NotExprNode{expr: node})
+			node.negated = true
+			bl.pushStack(node)
 		} else {
 			bl.SetError(errors.Errorf("Unexpected operation: %v", op))
 		}
